@@ -219,8 +219,8 @@ _PATH_NO_SLASH = r'(?![{sep}])'
 # One or more
 _ONE_OR_MORE = r'+'
 # End of pattern
-_EOP = r'$'
-_PATH_EOP = r'(?:$|[{sep}])'
+_EOP = r'\Z'
+_PATH_EOP = r'(?:\Z|[{sep}])'
 # Divider between `globstar`. Can match start or end of pattern
 # in addition to slashes.
 _GLOBSTAR_DIV = r'(?:^|$|{})+'
